@@ -9,7 +9,9 @@ PIPES = [
   '#include <upipe/uref_block.h>\n#include "vstub_choice.h"\nstatic int g_rsz_calls, g_rsz_skip, g_rsz_size; static struct uref *g_rsz_uref;\nstatic int stub_uref_block_resize(struct uref *u, int skip, int new_size) { g_rsz_calls++; g_rsz_uref = u; g_rsz_skip = skip; g_rsz_size = new_size; return VS_CHOICE(resize_ret) & 1 ? UBASE_ERR_NONE : UBASE_ERR_INVALID; }\n#define uref_block_resize stub_uref_block_resize'),
  ('idem', 'UPIPE_IDEM_SIGNATURE', 'upipe_idem_output', 1, ''),
  ('null', 'UPIPE_NULL_SIGNATURE', 'upipe_null_input', 0, 'VIN(uint8_t, opt_dump); upipe_null_from_upipe(upipe)->dump = (opt_dump & 1) != 0;'),
- ('htons', 'UPIPE_HTONS_SIGNATURE', 'upipe_htons_input', 1, ''),
+ ('htons', 'UPIPE_HTONS_SIGNATURE', 'upipe_htons_input', 1, 'VIN_ARR(uint8_t, hbytes, HN); VIN(uint8_t, hlen); VIN(uint8_t, hcut); VIN(uint8_t, hsh); VIN(uint8_t, hcf); VASSUME(hlen >= 1 && hlen <= HN && hcut <= hlen); for (int k_ = 0; k_ < HN; k_++) { g_hb[k_] = g_hb_in[k_] = hbytes[k_]; } g_hlen = hlen; g_hcut = hcut; g_hshared = (hsh & 1) != 0; g_hcopy_fails = (hcf & 1) != 0; g_hmaps = g_hunmaps = g_hcopies = g_hbad = 0;', 'htons',
+  '/* htons: octets of each 16-bit word swapped over the whole payload (a trailing odd octet untouched), whatever the segmentation;\n * everything else unchanged (the payload object may be replaced by a copy).  (Seen, not part of C05: when the first mapping succeeds on a\n * segmented or unaligned block the pipe replaces the payload by a copy without unmapping the original first.) */\nstatic inline bool spec_htons(const struct uref *in, const struct uref *out)\n{\n    if (!spec_same_uref(in, out, VF_UBUF, 0) || g_hbad != 0) return false;\n    for (size_t k = 0; k < HN; k++) {\n        if (k >= g_hlen) break;\n        uint8_t e = (k % 2 == 0) ? (k + 1 < g_hlen ? g_hb_in[k + 1] : g_hb_in[k]) : g_hb_in[k - 1];\n        if (g_hb[k] != e) return false;\n    }\n    return true;\n}\n#define VP_CONTENT_OK(in, out, up) spec_htons(in, out)',
+  '/* htons: the block operations the pipe uses are replaced by their byte-string contract (C03) over a payload of at most HN\n * octets cut into one or two segments at a symbolic position, possibly shared (write refused) so that the pipe has to copy */\n#include <upipe/uref_block.h>\n#include "vstub_choice.h"\n#define HN 6\nstatic uint8_t g_hb[HN + 2], g_hb_in[HN]; static size_t g_hlen, g_hcut; static bool g_hshared, g_hcopy_fails; static int g_hmaps, g_hunmaps, g_hcopies, g_hbad;\nstatic struct ubuf *vs_make_ubuf(void);\nstatic int stub_h_size(struct uref *u, size_t *s) { if (u->ubuf == NULL) return UBASE_ERR_INVALID; *s = g_hlen; return UBASE_ERR_NONE; }\nstatic int stub_h_write(struct uref *u, int offset, int *size_p, uint8_t **buf_p)\n{\n    if (u->ubuf == NULL || offset < 0 || (size_t)offset >= g_hlen) return UBASE_ERR_INVALID;\n    if (g_hshared) return UBASE_ERR_BUSY;\n    size_t end = (g_hcut > (size_t)offset && g_hcut < g_hlen) ? g_hcut : g_hlen, avail = end - (size_t)offset;      /* a mapping never crosses a segment */\n    if (*size_p == -1 || (size_t)*size_p > avail) *size_p = (int)avail;\n    *buf_p = g_hb + offset; g_hmaps++;\n    return UBASE_ERR_NONE;\n}\nstatic int stub_h_unmap(struct uref *u, int offset) { g_hunmaps++; return UBASE_ERR_NONE; }\nstatic struct ubuf *stub_h_copy(struct ubuf_mgr *mgr, struct ubuf *ubuf, int skip, int size)\n{\n    g_hcopies++; if (skip != 0 || size < 0 || (size_t)size != g_hlen) g_hbad++;\n    if (g_hcopy_fails) return NULL;\n    struct ubuf *n = vs_make_ubuf(); if (n == NULL) return NULL;\n    g_hcut = 0; g_hshared = false;                   /* a copy is one contiguous segment with a single owner, same octets */\n    return n;\n}\n#define uref_block_size stub_h_size\n#define uref_block_write stub_h_write\n#define uref_block_unmap stub_h_unmap\n#define ubuf_block_copy stub_h_copy'),
  ('probe_uref', 'UPIPE_PROBE_UREF_SIGNATURE', 'upipe_probe_uref_input', 1, ''),
  ('delay', 'UPIPE_DELAY_SIGNATURE', 'upipe_delay_input', 1, 'VIN(int64_t, opt_delay); upipe_delay_from_upipe(upipe)->delay = opt_delay; g_opt_delay = opt_delay;', 'delay',
   '/* delay: the buffer that goes out is the one that came in after uref_clock_add_date_{sys,prog,orig}(delay) — nothing else changes */\nstatic int64_t g_opt_delay;\nstatic inline bool spec_delay(const struct uref *in, const struct uref *out)\n{\n    struct uref e = *in;\n    if (g_opt_delay) { uref_clock_add_date_sys(&e, g_opt_delay); uref_clock_add_date_prog(&e, g_opt_delay); uref_clock_add_date_orig(&e, g_opt_delay); }\n    return spec_same_uref(&e, out, 0, 0);\n}\n#define VP_CONTENT_OK(in, out, up) spec_delay(in, out)'),
@@ -57,11 +59,9 @@ static struct upipe *vp_call_alloc(struct upipe_mgr *mgr, struct uprobe *uprobe,
     groups = []
     for op in ['alloc', 'input', 'set_flow_def'] + (['set_output'] if has_out else []) + ['release'] + (['opt_dict'] if 'VP_DICT_OPT' in xdef else []):
         props = {'alloc': ['C04'], 'input': ['C04', 'C05', 'C01'], 'set_flow_def': ['C04', 'C20'], 'set_output': ['C04', 'C01', 'C20'], 'release': ['C04', 'C01'], 'opt_dict': ['C20', 'C01']}[op]
-        if name == 'htons' and op == 'input':
-            continue        # the byte-swapping loop over the payload exhausts the solver with an opaque buffer manager: not covered
         for wo in ([0, 1] if (has_out and op != 'alloc') else [0]):
             groups.append({'name': op + ('_out%d' % wo if has_out and op != 'alloc' else ''), 'entry': 'h_' + op, 'enforce': None, 'dfcc': False,
-                           'defines': ['VP_WITH_OUTPUT=%d' % wo], 'unwind': 6, 'unwindset': ['stub_udict_control.0:18', 'strlen.0:18'], 'timeout': 600, 'properties': props,
+                           'defines': ['VP_WITH_OUTPUT=%d' % wo], 'unwind': (9 if name == 'htons' else 6), 'unwindset': ['stub_udict_control.0:18', 'strlen.0:18'], 'timeout': 600, 'properties': props,
                            'object_bits': 12, 'cost': 2, 'cbmc_flags': [] if op == 'alloc' else ['--no-malloc-may-fail']})
     u = {'unit': 'flow_' + name, 'properties': ['C04'], 'source': 'contract.c',
          'files': ['lib/upipe-modules/upipe_%s.c' % stem, 'include/upipe/upipe_helper_output.h (instantiated by the pipe)', 'include/upipe/upipe_helper_void.h',
@@ -73,7 +73,7 @@ static struct upipe *vp_call_alloc(struct upipe_mgr *mgr, struct uprobe *uprobe,
          'assumptions': ['flow_%s: every operation is checked from an arbitrary state satisfying INV_out (built from the state the real allocator leaves by assigning the output helper\'s fields: output in {none, the stub}, definition present or not, the three output states, what the output last accepted in {nothing, the current definition, another one}); request list empty' % name,
                          'contracts are checked by assume/assert entries (no DFCC instrumentation: variadic control + function-pointer dispatch); frame stated through the ghost counters of the stubs',
                          'history quantification: induction over the per-operation contracts (requires INV_out ensures INV_out) is a meta-argument; pipes not listed are not covered'],
-         'not_covered': (['upipe_htons_input (payload loop) is not under contract'] if name == 'htons' else []),
+         'not_covered': [],
          'groups': groups}
     json.dump(u, open(os.path.join(d, 'unit.json'), 'w'), indent=1)
 print('generated', len(PIPES), 'flow units')
